@@ -16,7 +16,7 @@ func init() {
 	register(&PropDef{
 		ID: "C16", Level: "exploration", Quick: 15000, Thorough: 300000, QuickCap: 110,
 		Rule:   "three sub-workloads drawn per run. policy: random rule trees (max-versions, max-age, nested unions, intersection, none) per family over cells whose timestamps sit exactly at, 1 ms before and after the cut-off (server clock drawn so that now-age falls on, just below and just above a cell), one forced pass, every table compared with the GC model. concurrent: one pass task plus 1-3 add-only writer tasks (one writer per row) on tables of 1-400 rows under the seeded scheduler; per row GC(M) <= final <= M. activity: a non-forced pass 1 ms..1 s of wall clock after a read or write must collect nothing (and after an idle jump of hours it is expected to collect - probe only). distinct = hash of (sub-workload, rules, trace); non-trivial = concurrent run with a write completed inside the pass, or a policy run that condemned at least one cell",
-		Real:   []string{"bttest table.gc, applyGC, gc quiescence test, MutateRow, ReadRows", "all engines (concurrent sub-workload: leveldb engines only, see DESIGN 2.1)"},
+		Real:   []string{"bttest table.gc, applyGC, gc quiescence test, MutateRow, ReadRows", "all engines (the concurrent sub-workload includes the btree engine since the pass restarts its iteration after every lock hand-over, see DESIGN 2.1)"},
 		Stub:   []string{"gcloop's timer (the pass itself is the real code, started by the simulator)", "wall clock and server clock (simulator-owned)", "cooperative table mutex"},
 		Assume: []string{"writers in the concurrent sub-workload only add cells, so that GC(M_final) <= final is implied by the statement for every pass instant", "the activity sub-workload uses no constant from the code: 'in use' = touched at most 1 s of wall clock ago"},
 		Run:    runC16,
@@ -246,7 +246,7 @@ func c16Policy(r *Run, cfg *Stream) {
 }
 
 func c16Concurrent(r *Run, cfg *Stream) {
-	engine := []string{engLdbMem, engLdbMem, engLdbDisk}[cfg.Intn(3)]
+	engine := []string{engLdbMem, engBtree, engLdbDisk}[cfg.Intn(3)] // the pass restarts its iteration after every lock hand-over, so the btree engine takes part too
 	if r.Index < 6 {
 		engine = engLdbMem
 	}
